@@ -128,6 +128,9 @@ IsX(o) == o.kind = "X"
 DefaultTitles == <<"Efermi", "Omega">>
 TitlesFor(given, n) == [i \in 1..n |-> IF i <= Len(given) THEN given[i] ELSE "???"]     \* EnergyResult.__init__
 NoSmoothers(n) == [i \in 1..n |-> <<>>]
+(* results without any energy axis are left out: the class documentation itself is unsure about them ("does it work?");
+   the harness reports what happens with them as an observation *)
+EnergyShapeOK(shape) == Len(shape) >= 1
 MkE(shape, en, rank, data, tTR, tInv, comment) ==
    [kind |-> "E", shape |-> shape, en |-> en, titles |-> TitlesFor(DefaultTitles, Len(shape)), rank |-> rank, data |-> data,
     tTR |-> tTR, tInv |-> tInv, comment |-> comment, smo |-> NoSmoothers(Len(shape))]
@@ -156,6 +159,7 @@ Mul1(a, s) ==
    CASE a.kind = "V" -> Void
      [] a.kind = "E" -> [a EXCEPT !.data = DScale(s, a.data)]
      [] a.kind = "K" -> [a EXCEPT !.data = DScale(s, a.data)]              \* chunk-wise: chunks kept
+     [] a.kind = "X" -> a
 Add1(a, b) ==                                                               \* a + b = a.__add__(b)
    CASE a.kind = "V" -> b
      [] a.kind = "E" -> IF b.kind = "V" THEN a
@@ -164,23 +168,27 @@ Add1(a, b) ==                                                               \* a
      [] a.kind = "K" -> IF b.kind = "V" THEN (IF "kvoid" \in Wrong THEN Raise("K__Result.__add__:void") ELSE a)
                         ELSE IF ~KFit(a, b) THEN Raise("K__Result.__add__:fit")
                         ELSE [a EXCEPT !.chunks = a.chunks \o b.chunks, !.data = a.data \o b.data]
+     [] a.kind = "X" -> a
 Sub1(a, b) ==                                                               \* a - b
    CASE a.kind = "V" -> Mul1(b, -1)
      [] a.kind = "E" -> Add1(a, Mul1(b, -1))
      [] a.kind = "K" -> IF b.kind = "V" THEN (IF "kvoid" \in Wrong THEN Raise("K__Result.__sub__:void") ELSE a)
                         ELSE IF ~KSameShape(a, b) THEN Raise("K__Result.__sub__:shape")
                         ELSE [a EXCEPT !.chunks = <<NK(a)>>, !.data = DSubV(a.data, b.data)]
+     [] a.kind = "X" -> a
 DivDefined1(a, s) == a.kind = "E" => DivisibleData(a.data, s)             \* integer world: E / s only when exact
 Div1(a, s) ==
    CASE a.kind = "V" -> Void
      [] a.kind = "E" -> [a EXCEPT !.data = DDiv(a.data, s)]
      [] a.kind = "K" -> a                                                   \* "actually a copy"
+     [] a.kind = "X" -> a
 TransformDefined1(a, g) ==
    a.kind \in {"E", "K"} => /\ (g.TR => a.tTR # TNone /\ TransformFits(a.tTR, a.rank))
                            /\ (g.Inv => a.tInv # TNone /\ TransformFits(a.tInv, a.rank))
 Transform1(a, g) ==
    CASE a.kind = "V" -> Void
      [] a.kind \in {"E", "K"} -> [a EXCEPT !.data = TransformTensor(g, a.data, a.rank, a.tTR, a.tInv)]
+     [] a.kind = "X" -> a
 (* reading .data of a K__Result merges data_list into one array *)
 Touch(a) == IF a.kind = "K" THEN [a EXCEPT !.chunks = <<NK(a)>>] ELSE a
 
